@@ -97,13 +97,15 @@ def run(pid, tier, replay=None):
     chk.add_tlc("Wallet key pool (3 keys, every sequence of <= %d hand-outs/restores/saves/loads)" % base["MaxOps"], r, constants=str(base))
     if r.violated:
         return machinery_failure(pid, "Wallet.tla (key pool) violates %s" % r.violated)
-    for (inplace, early, expect) in ((False, False, None), (True, False, "I_C15_Atomic"), (False, True, "I_C15_Atomic")):
-        c = {"Target": "wallet.json", "NewSize": 5, "Side": "wallet.json.new", "InPlace": inplace, "RenameEarly": early}
+    for (inplace, early, promote, expect) in ((False, False, False, None), (True, False, False, "I_C15_Atomic"), (False, True, False, "I_C15_Atomic"),
+                                              (False, False, True, "I_C15_Atomic")):
+        c = {"Target": "wallet.json", "NewSize": 5, "Side": "wallet.json.new", "InPlace": inplace, "RenameEarly": early, "PromoteSide": promote}
         ra = tracecheck.model("MC_AtomicFile", "Spec", c, invariants=["I_C15_Atomic", "I_DoneIsNew"], workers=2, timeout=300)
         tlc.require_clean(ra, "MC_AtomicFile")
-        chk.add_tlc("MC_AtomicFile InPlace=%s RenameEarly=%s (every chunking, crash in every state)" % (inplace, early), ra, expect_violation=expect)
+        chk.add_tlc("MC_AtomicFile InPlace=%s RenameEarly=%s PromoteSideOnRestart=%s (every chunking, crash in every state, restart, save again)" % (inplace, early, promote),
+                    ra, expect_violation=expect)
         if (expect is None) != (not ra.violated):
-            return machinery_failure(pid, "MC_AtomicFile: unexpected result %s for InPlace=%s RenameEarly=%s" % (ra.violated, inplace, early))
+            return machinery_failure(pid, "MC_AtomicFile: unexpected result %s for InPlace=%s RenameEarly=%s PromoteSide=%s" % (ra.violated, inplace, early, promote))
 
     # ---- (b) operation sequences on the real wallet + file
     traces = []
@@ -199,6 +201,19 @@ def run(pid, tier, replay=None):
             if state not in ("old", "new"):
                 chk.violation("C15:wallet_file_neither_complete_old_nor_complete_new_after_crash",
                               {"crash_before_boundary": k, "of": nb, "file_state": state}, {"clause": "crash"})
+            # restart: the program's own start-up path for the wallet (scripts/utils.open_or_init_wallet) runs on what the crash left behind
+            rs = subprocess.run(["/venv/bin/python", "-c", "import sys; sys.dont_write_bytecode = True; sys.path.insert(0, %r); "
+                                 "from skepticoin.scripts.utils import open_or_init_wallet; w = open_or_init_wallet(); "
+                                 "print('KEYS', len(w.keypairs), len(w.unused_public_keys))" % sk.REPO], cwd=d, capture_output=True, text=True)
+            try:
+                got2 = json.load(open(os.path.join(d, "wallet.json")))
+                state2 = "old" if got2 == old_proj else "new" if got2 == new_proj else "other"
+            except Exception as e:
+                state2 = "unreadable: %r" % e
+            if state2 not in ("old", "new") or rs.returncode != 0:
+                chk.violation("C15:wallet_file_neither_complete_old_nor_complete_new_after_crash_and_restart",
+                              {"crash_before_boundary": k, "of": nb, "file_state_after_crash": state, "file_state_after_restart": state2,
+                               "restart_exit": rs.returncode, "restart_stderr": rs.stderr[-300:]}, {"clause": "crash_restart"})
         chk.extra.setdefault("crash_points_materialised", {})[label] = len(list(points))
         shutil.rmtree(d, ignore_errors=True)
 
